@@ -42,10 +42,11 @@ type State struct {
 	iters    map[ssa.Value]string // map-range iterator -> seen set
 	defers   []*ssa.Defer
 	fcells   map[*ssa.FreeVar]string // captured variables of a function literal (cells of the enclosing function)
+	iter     *State                  // state at the head of the innermost enclosing loop (for iter(e) in site assertions)
 }
 
 func (s *State) clone() *State {
-	n := &State{reach: s.reach, allocTop: s.allocTop, epoch: s.epoch,
+	n := &State{reach: s.reach, allocTop: s.allocTop, epoch: s.epoch, iter: s.iter,
 		heap: make(map[string]string, len(s.heap)), cells: make(map[*ssa.Alloc]string, len(s.cells)),
 		iters: make(map[ssa.Value]string, len(s.iters))}
 	for k, v := range s.heap {
@@ -94,6 +95,7 @@ type VC struct {
 	fn   *ssa.Function
 	spec *FuncSpec
 	key  string
+	closePts [][3]string // (allocTop, reach, epoch) of the heap-closure points emitted so far (closeAll)
 
 	cmds   []string
 	decl   map[string]string // symbol -> sort (declared)
@@ -159,7 +161,11 @@ func newVC(w *World, cs *Contracts, ms *ModSets, fn *ssa.Function, spec *FuncSpe
 		notes: map[string]bool{}, unsupp: map[string]bool{}, assumedUse: map[string]bool{},
 		callOrd: map[string]int{}, panicOrd: map[string]int{}, sumDefs: map[string]bool{},
 		closures: map[ssa.Value]*ssa.MakeClosure{}, edgeReach: map[[2]int]string{},
-		compType: map[string]types.Type{}, epochTop: map[int]string{}, siteHits: map[*SiteSpec]int{}, defined: map[string]bool{}, patAlias: map[string]string{}, allocSeq: map[*ssa.Alloc]int{}, nameCount: map[string]int{}, namedObjs: map[string]Val{}}
+		epochTop: map[int]string{}, siteHits: map[*SiteSpec]int{}, defined: map[string]bool{}, patAlias: map[string]string{}, allocSeq: map[*ssa.Alloc]int{}, nameCount: map[string]int{}, namedObjs: map[string]Val{}}
+	if w.compType == nil {
+		w.compType = map[string]types.Type{}
+	}
+	vc.compType = w.compType
 	vc.prelude()
 	return vc
 }
@@ -405,6 +411,16 @@ func (vc *VC) heapGet(st *State, comp, sort string) string {
 			top = vc.allocBase
 		}
 		vc.closed(name, comp, sort, top)
+		// the component was not touched since the epoch began, so it is also closed at the current allocation top:
+		// objects allocated since (by callees) only hold references to objects that exist now
+		if st.allocTop != "" && st.allocTop != top {
+			vc.closedGuard(name, comp, sort, st.allocTop, st.reach)
+		}
+		for _, cp := range vc.closePts {
+			if cp[2] == fmt.Sprint(st.epoch) && cp[0] != top && cp[0] != st.allocTop {
+				vc.closedGuard(name, comp, sort, cp[0], cp[1])
+			}
+		}
 	}
 	return name
 }
@@ -420,6 +436,10 @@ func isRefType(t types.Type) bool {
 // closed emits the heap-closure fact for a freshly declared version of a component: objects
 // allocated at that time only point to objects allocated at that time.
 func (vc *VC) closed(name, comp, sort, top string) {
+	vc.closedGuard(name, comp, sort, top, "")
+}
+
+func (vc *VC) closedGuard(name, comp, sort, top, guard string) {
 	ty := vc.compType[comp]
 	if ty == nil || top == "" {
 		return
@@ -434,20 +454,24 @@ func (vc *VC) closed(name, comp, sort, top string) {
 		}
 		return x
 	}
+	g := func(body string) string {
+		if guard == "" || guard == "true" {
+			return "(assert " + body + ")"
+		}
+		return "(assert (=> " + guard + " " + body + "))"
+	}
 	switch {
 	case strings.HasPrefix(comp, "F_"):
-		vc.emit(fmt.Sprintf("(assert (forall ((o Int)) (! (=> (<= o %s) (<= %s %s)) :pattern ((select %s o)))))", top, wrap(sx("select", name, "o")), top, name))
+		vc.emit(g(fmt.Sprintf("(forall ((o Int)) (! (=> (<= o %s) (<= %s %s)) :pattern ((select %s o))))", top, wrap(sx("select", name, "o")), top, name)))
 	case strings.HasPrefix(comp, "G_"):
-		vc.emit(fmt.Sprintf("(assert (<= %s %s))", wrap(name), top))
+		vc.emit(g(fmt.Sprintf("(<= %s %s)", wrap(name), top)))
 	case strings.HasPrefix(comp, "Mval_"):
-		ks := strings.TrimPrefix(strings.SplitN(sort, " ", 4)[3], "")
-		_ = ks
 		// sort is (Array Int (Array K V))
 		inner := strings.TrimSuffix(strings.TrimPrefix(sort, "(Array Int "), ")")
 		k := strings.Fields(strings.TrimPrefix(inner, "(Array "))[0]
-		vc.emit(fmt.Sprintf("(assert (forall ((o Int) (k %s)) (! (=> (<= o %s) (<= %s %s)) :pattern ((select (select %s o) k)))))", k, top, wrap(sx("select", sx("select", name, "o"), "k")), top, name))
+		vc.emit(g(fmt.Sprintf("(forall ((o Int) (k %s)) (! (=> (<= o %s) (<= %s %s)) :pattern ((select (select %s o) k))))", k, top, wrap(sx("select", sx("select", name, "o"), "k")), top, name)))
 	case strings.HasPrefix(comp, "E_"):
-		vc.emit(fmt.Sprintf("(assert (forall ((o Int) (i Int)) (! (=> (<= o %s) (<= %s %s)) :pattern ((select (select %s o) i)))))", top, wrap(sx("select", sx("select", name, "o"), "i")), top, name))
+		vc.emit(g(fmt.Sprintf("(forall ((o Int) (i Int)) (! (=> (<= o %s) (<= %s %s)) :pattern ((select (select %s o) i))))", top, wrap(sx("select", sx("select", name, "o"), "i")), top, name)))
 	}
 }
 
@@ -464,6 +488,18 @@ func (vc *VC) closeAll(st *State) {
 	}
 	sort.Strings(comps)
 	top := st.allocTop
+	// remember this closure point: a component that is first mentioned later was untouched here, so it was closed too
+	if n := len(vc.closePts); n == 0 || vc.closePts[n-1] != [3]string{top, st.reach, fmt.Sprint(st.epoch)} {
+		dup := false
+		for _, cp := range vc.closePts {
+			if cp[0] == top && cp[2] == fmt.Sprint(st.epoch) {
+				dup = true
+			}
+		}
+		if !dup {
+			vc.closePts = append(vc.closePts, [3]string{top, st.reach, fmt.Sprint(st.epoch)})
+		}
+	}
 	for _, comp := range comps {
 		ty := vc.compType[comp]
 		if ty == nil {
@@ -625,6 +661,13 @@ func (vc *VC) merge(edges []inEdge, hint string) *State {
 		return edges[0].st.clone()
 	}
 	out := &State{heap: map[string]string{}, cells: map[*ssa.Alloc]string{}, iters: map[ssa.Value]string{}}
+	// the enclosing loop head is shared by all incoming edges of a join inside the loop body
+	out.iter = edges[0].st.iter
+	for _, e := range edges[1:] {
+		if e.st.iter != out.iter {
+			out.iter = nil
+		}
+	}
 	var rs []string
 	for _, e := range edges {
 		rs = append(rs, e.st.reach)
